@@ -16,7 +16,10 @@ package compiler
 //
 // Program encoding (no spaces): statements separated by ';', functions by '|':
 //   E<k> emit, R raise, P<v> panic, T[body][catch], D[body] defer closure, C<f> call, X return,
-//   L<id>.<n>[body] loop, B break, K continue, V recover-and-log.
+//   L<id>.<n>[body] loop, B break, K continue, V recover-and-log,
+//   I<id>.<k>[body] `if i<id> == k { body }` on the counter of an enclosing loop of the same function
+//   (so a statement can be skipped on the first passes of a loop and executed on a later one: a
+//   `return` written ahead of the function's first `defer` yet executed after it was registered).
 //   A function text starting with the pseudo-statement `u` / `n` has one unnamed / one named int
 //   result (`func f() int` / `func f() (r int)`); in such a function Y<k> is `return mkv(k)` (mkv
 //   records marker k and returns it), Z<f> is `return f<f>()` (f has a result), W is
@@ -48,9 +51,10 @@ import (
 )
 
 type c10Stmt struct {
-	Op   byte // E R P T D C X L B K V  Y Z W  u n
-	N    int  // marker / panic value / callee / loop count
+	Op   byte // E R P T D C X L B K V I  Y Z W  u n
+	N    int  // marker / panic value / callee / loop count / counter value of I
 	ID   int  // loop id; for D: number of the defer statement (c10NumberDefers, not encoded)
+	Pos  int  // number of the statement in text order (c10NumberDefers, not encoded)
 	A, B []c10Stmt
 }
 
@@ -73,8 +77,8 @@ func (s c10Stmt) enc() string {
 		return "T[" + c10EncBlock(s.A) + "][" + c10EncBlock(s.B) + "]"
 	case 'D':
 		return "D[" + c10EncBlock(s.A) + "]"
-	case 'L':
-		return "L" + strconv.Itoa(s.ID) + "." + strconv.Itoa(s.N) + "[" + c10EncBlock(s.A) + "]"
+	case 'L', 'I':
+		return string(s.Op) + strconv.Itoa(s.ID) + "." + strconv.Itoa(s.N) + "[" + c10EncBlock(s.A) + "]"
 	}
 
 	return string(s.Op)
@@ -124,14 +128,19 @@ func c10Render(p c10Prog) string {
 	return sb.String()
 }
 
-// c10NumberDefers numbers the defer statements of the program 1, 2, ... in text order.
+// c10NumberDefers numbers the defer statements of the program 1, 2, ... in text order, and all
+// statements (Pos) in text order.
 func c10NumberDefers(p c10Prog) {
 	n := 0
+	pos := 0
 
 	var walk func(b []c10Stmt)
 
 	walk = func(b []c10Stmt) {
 		for i := range b {
+			pos++
+			b[i].Pos = pos
+
 			if b[i].Op == 'D' {
 				n++
 				b[i].ID = n
@@ -187,6 +196,10 @@ func c10RenderBlock(sb *strings.Builder, b []c10Stmt, ind int, kind byte) {
 		case 'L':
 			v := "i" + strconv.Itoa(s.ID)
 			fmt.Fprintf(sb, "%sfor %s := 0; %s < %d; %s = %s + 1 {\n", pad, v, v, s.N, v, v)
+			c10RenderBlock(sb, s.A, ind+1, kind)
+			fmt.Fprintf(sb, "%s}\n", pad)
+		case 'I':
+			fmt.Fprintf(sb, "%sif i%d == %d {\n", pad, s.ID, s.N)
 			c10RenderBlock(sb, s.A, ind+1, kind)
 			fmt.Fprintf(sb, "%s}\n", pad)
 		case 'B':
@@ -431,6 +444,26 @@ var c10Corpus = []string{
 	"n;D[E1];L1.2[Y2]",
 	"u;D[E1];L1.2[T[Y2][E3]]",
 	"C1;C1|u;D[D[E1];E2];Z2|n;D[V];P5",
+	// a return written AHEAD of the function's defer statements, executed AFTER they registered
+	// calls (the `if` skips it on the first passes of the loop): every registered call runs once,
+	// last first -- no result / unnamed / named result, under try, nested loops, in a closure,
+	// several calls per pass, left by break / continue instead, a panic afterwards
+	"L1.3[I1.2[E1;X];D[E2]];E3",
+	"C1;E9|L1.3[I1.2[E1;X];D[E2]];E3",
+	"C1;E9|u;L1.3[I1.2[Y1];D[E2]];E3",
+	"C1;E9|n;L1.3[I1.1[Y1];D[E2]];E3",
+	"C1;E9|u;L1.4[E1;I1.3[X];D[E2];D[V;E3]];E4",
+	"C1;E9|n;L1.3[I1.2[Z2];D[E2]];E3|n;L2.2[I2.1[E4;X];D[E5]]",
+	"L1.3[T[I1.1[X]][E1];T[D[E2]][E3]];E4",
+	"L1.3[I1.2[T[X][E1]];T[R][D[E2];E3]];E4",
+	"L1.2[L2.2[I1.1[E1;X];D[E2]]];E3",
+	"L1.3[I1.2[X];L2.2[D[E1]];I1.0[D[E2]]];E3",
+	"D[L1.2[I1.1[X];D[E1]];E2];E3",
+	"L1.3[I1.2[B];D[E1]];E2",
+	"L1.3[I1.1[K];D[E1]];E2",
+	"T[C1;E1][E2]|L1.3[I1.2[E3;X];D[V;E4]];P5",
+	"C1;E1|L1.3[I1.1[E2;P7];D[V;E3]];E4",
+	"C1;E9|u;L1.3[I1.2[W];D[E2]];E3",
 }
 
 func c10HasLoopInTry(b []c10Stmt, inTry bool) bool {
@@ -442,6 +475,10 @@ func c10HasLoopInTry(b []c10Stmt, inTry bool) bool {
 			}
 		case 'L':
 			if inTry || c10HasLoopInTry(s.A, inTry) {
+				return true
+			}
+		case 'I':
+			if c10HasLoopInTry(s.A, inTry) {
 				return true
 			}
 		case 'D':
@@ -520,7 +557,7 @@ func c10RetShape(p c10Prog) string {
 				f1, u1 := has(s.A, true)
 				f2, u2 := has(s.B, inTry)
 				found, under = found || f1 || f2, under || u1 || u2
-			case 'L':
+			case 'L', 'I':
 				f1, u1 := has(s.A, inTry)
 				found, under = found || f1, under || u1
 			}
@@ -611,7 +648,7 @@ func TestVerifC10(t *testing.T) {
 		}
 
 		kinds := 0
-		for _, b := range []bool{m.caught > 0, m.recovered > 0, m.panicInDefer || m.errInDefer || m.errAbandonsDef, m.maxDepth > 2, m.retExprs > 0} {
+		for _, b := range []bool{m.caught > 0, m.recovered > 0, m.panicInDefer || m.errInDefer || m.errAbandonsDef, m.maxDepth > 2, m.retExprs > 0, m.lateRets > 0} {
 			if b {
 				kinds++
 			}
@@ -654,6 +691,12 @@ func TestVerifC10(t *testing.T) {
 
 		if m.retExprFailed {
 			stats.Inc("ref_ret_expr_failed")
+		}
+
+		if m.lateRets > 0 {
+			stats.Inc("ref_late_return_programs")
+			stats.Add("ref_late_returns", m.lateRets)
+			stats.Add("ref_late_return_defers", m.lateRetDefers)
 		}
 
 		// model-free: no deferred call is started more often than its defer statement was executed
